@@ -29,7 +29,8 @@ LEVEL_TEXT = ("held on N generated 60 s scripts: each single fault kind on each 
               "message and exactly at last receipt + max age), recovery, blocking back-off sequence and only-on-change "
               "are checked on every run. Fault enumeration over single faults, exploration over timings.")
 LEVEL_NOTE = ("events are >= 3 ms apart and decision windows are 1 ms, so verdicts never depend on same-instant order; "
-              "fake API / component graph; warnings (non-critical errors) count as healthy")
+              "fake API / component graph; warnings (non-critical errors) count as healthy"
+              ' Build phase: manager tier (outcomes as the real BatteryManager reports them), pool tier with notification conservation and repeated identical failures, identical samples delivered again, non-UTC message stamps, process in a DST zone.')
 RULE = ("seeded scripts; distinct = canonical script JSON; non-trivial = >=1 fault or silence and >=1 failed set-power "
         "while working")
 REQUIRED_BUCKETS = ["pool-identical-failure-message-twice", "messages-stamped-in-a-non-utc-zone", "identical-battery-sample-delivered-again-when-too-old", "manager-tier:all-calls-of-the-next-request-succeed", "manager-tier:failed-batteries-reported-uncertain", "fault:state", "fault:relay", "fault:cap", "fault:crit", "fault:stale", "inv-fault:state",
